@@ -22,7 +22,7 @@ package keys
 //@ o-ensures: [exactly-once] len(r) == len(m) && forall a int, b int :: 0 <= a && a < b && b < len(r) ==> r[a] != r[b]
 //@ o-ensures: [fresh] r != nil
 //@ o-ensures: [keys-of] keysOf(m, r)
-//@ o-loop: 1: invariant len(keys) == $count && keys != nil
-//@ o-loop: 1: invariant forall j int :: 0 <= j && j < len(keys) ==> visited(keys[j])
-//@ o-loop: 1: invariant forall k val :: visited(k) ==> elemOf(k, keys)
-//@ o-loop: 1: invariant forall a int, b int :: 0 <= a && a < b && b < len(keys) ==> keys[a] != keys[b]
+//@ o-loop: 1: invariant len($out0) == $count && $out0 != nil
+//@ o-loop: 1: invariant forall j int :: 0 <= j && j < len($out0) ==> visited($out0[j])
+//@ o-loop: 1: invariant forall k val :: visited(k) ==> elemOf(k, $out0)
+//@ o-loop: 1: invariant forall a int, b int :: 0 <= a && a < b && b < len($out0) ==> $out0[a] != $out0[b]
